@@ -607,6 +607,43 @@ func dectotFL1Class(md protoreflect.MessageDescriptor, b []byte, depth int) bool
 	return false
 }
 
+// dectotFWB5Class recognises finding FWB5 on a decoded message: somewhere in it a oneof holds a
+// member that is not the first member of its oneof, is message-typed, and whose value lacks a
+// required field.  initOneofFieldCoders installs isInit only on the first member's coder, so
+// the decode loop ignores the "not initialized" result of any other member.
+func dectotFWB5Class(m protoreflect.Message, depth int) bool {
+	found := false
+	if depth < 0 {
+		return false
+	}
+	m.Range(func(fd protoreflect.FieldDescriptor, v protoreflect.Value) bool {
+		switch {
+		case fd.IsMap():
+			if fd.MapValue().Message() != nil {
+				v.Map().Range(func(_ protoreflect.MapKey, mv protoreflect.Value) bool {
+					found = found || dectotFWB5Class(mv.Message(), depth-1)
+					return !found
+				})
+			}
+		case fd.IsList():
+			if fd.Message() != nil {
+				for i := 0; i < v.List().Len() && !found; i++ {
+					found = dectotFWB5Class(v.List().Get(i).Message(), depth-1)
+				}
+			}
+		case fd.Message() != nil:
+			if od := fd.ContainingOneof(); od != nil && !od.IsSynthetic() && od.Fields().Get(0).Number() != fd.Number() &&
+				proto.CheckInitialized(v.Message().Interface()) != nil {
+				found = true
+			} else {
+				found = dectotFWB5Class(v.Message(), depth-1)
+			}
+		}
+		return !found
+	})
+	return found
+}
+
 func dectotOne(c *Ctx, t *dectotTarget, b []byte, limit int, what string) {
 	c.Stat("in_" + what)
 	name := string(t.md.FullName())
@@ -664,7 +701,7 @@ func dectotOne(c *Ctx, t *dectotTarget, b []byte, limit int, what string) {
 				fail("result depends on bytes after the end of the input")
 			}
 		}
-		var ci bool
+		var ci, fwb5 bool
 		if eager.class == "ok" {
 			var pan interface{}
 			ci, pan = dectotCheckInit(eager.m)
@@ -677,7 +714,13 @@ func dectotOne(c *Ctx, t *dectotTarget, b []byte, limit int, what string) {
 				want = "e4"
 			}
 			if strict.class != want {
-				fail("strict Unmarshal verdict " + strict.class + " but CheckInitialized says " + want)
+				if strict.class == "ok" && dectotFWB5Class(eager.m, 50) {
+					c.Known("FWB5", "C06", "the decode loop ignores an uninitialized message value of a non-first oneof member")
+					c.Stat("known_FWB5")
+					fwb5 = true
+				} else {
+					fail("strict Unmarshal verdict " + strict.class + " but CheckInitialized says " + want)
+				}
 			}
 			c.Stat(fmt.Sprintf("checkinit_%v", ci))
 		} else if strict.class != eager.class {
@@ -689,7 +732,13 @@ func dectotOne(c *Ctx, t *dectotTarget, b []byte, limit int, what string) {
 		} else if (uerr == nil) != (eager.class == "ok") {
 			fail("methods.Unmarshal and proto.Unmarshal verdicts differ")
 		} else if uerr == nil && uinit && !ci {
-			fail("Unmarshal reports a partial message as initialized")
+			if dectotFWB5Class(eager.m, 50) {
+				c.Known("FWB5", "C06", "the decode loop ignores an uninitialized message value of a non-first oneof member")
+				c.Stat("known_FWB5")
+				fwb5 = true
+			} else {
+				fail("Unmarshal reports a partial message as initialized")
+			}
 		}
 		if t.validable {
 			st, vinit, pan := dectotValidate(t.mt, tight, limit)
@@ -720,7 +769,8 @@ func dectotOne(c *Ctx, t *dectotTarget, b []byte, limit int, what string) {
 			}
 			c.Case("dectot", "val", []string{t.id, HexN(uint64(lim)), HexB(b)}, []string{HexN(uint64(st)), Tok(vinit)})
 		}
-		if t.exact || limit == 0 {
+		if (t.exact || limit == 0) && !fwb5 {
+			// (with FWB5 the strict verdict is not "AllowPartial verdict, then CheckInitialized")
 			c.Case("dectot", "dec", []string{t.id, "f", HexN(uint64(lim)), HexB(b)}, []string{strict.class})
 		}
 		if eager.class == "ok" {
@@ -1039,6 +1089,19 @@ func dectotCorpus(c *Ctx, targets []*dectotTarget) {
 					c.Stat("FL1_witness_passes")
 				}
 			}
+		}
+	}
+	// FWB5: the second member of a oneof is a message without its required field
+	for _, n := range []string{"goproto.proto.test.TestOneofWithRequired", "opaque.goproto.proto.testeditions.TestOneofWithRequired"} {
+		if t := dectotFind(c, targets, n); t != nil {
+			ensure(t)
+			before := c.stats["known_FWB5"]
+			dectotOne(c, t, []byte{0x12, 0x00}, 0, "corpus_FWB5")
+			if c.stats["known_FWB5"] == before {
+				c.Stat("FWB5_witness_passes")
+			}
+			dectotOne(c, t, []byte{0x12, 0x02, 0x08, 0x01}, 0, "corpus")
+			dectotOne(c, t, []byte{0x08, 0x01}, 0, "corpus")
 		}
 	}
 	// required fields: below a list, a map value, a oneof, a group; the validator's required mask
